@@ -1077,7 +1077,7 @@ func init() {
 				g.LockedAcct = r.Intn(3)
 			})
 		},
-		Monitors: func(sc *Scenario) []Monitor { return []Monitor{&MonC16{}} },
+		Monitors: func(sc *Scenario) []Monitor { return []Monitor{&MonC16{}, MonHotCold{}} },
 		Distinct: func(w *World) []string { return classesOf(w) },
 		ExpectProbes: []string{"c16_block_checked"},
 	})
